@@ -160,6 +160,15 @@ func runSkipRows(prop string) func(p *Prog, r *Report) {
 							if strings.HasPrefix(rq, "!") {
 								want, t = false, rq[1:]
 							}
+							// "the lookup missed", answered by a helper in any of its boolean results:
+							// the helper gives that answer exactly under its own map lookup's miss
+							if t == "ok" && pol == want {
+								if h, idx := flagResultOf(fn, a); h != nil && answersOnlyOnLookupAt(h, idx, pol) {
+									seen[rq] = true
+									okAtom = true
+									continue
+								}
+							}
 							if sameText(fn, txt, t) {
 								if pol == want {
 									// the flag of a search helper stands for the lookup's own ok only if
@@ -221,6 +230,52 @@ func onlySelectsLoopElement(fn *Func, loop ast.Node, a *Atom) bool {
 // answersOnlyOnLookup: every `return …, <answer>` of helper t is reached only under the
 // same outcome of a comma-ok map lookup made in t (answer false: the lookup missed).
 func answersOnlyOnLookup(t *Func, answer bool) bool {
+	return answersOnlyOnLookupAt(t, -1, answer)
+}
+
+// flagResultOf: the atom is a local bool defined (once) as result idx of a call to a module
+// function with a body: that function and idx.
+func flagResultOf(fn *Func, a *Atom) (*Func, int) {
+	id, ok := ast.Unparen(a.E).(*ast.Ident)
+	if !ok {
+		return nil, 0
+	}
+	info := fn.Info()
+	o := info.ObjectOf(id)
+	if o == nil {
+		return nil, 0
+	}
+	as := rootFunc(fn).Assignments(o)
+	if len(as) != 1 {
+		return nil, 0
+	}
+	st, ok := as[0].(*ast.AssignStmt)
+	if !ok || len(st.Rhs) != 1 || len(st.Lhs) < 2 {
+		return nil, 0
+	}
+	call, ok := ast.Unparen(st.Rhs[0]).(*ast.CallExpr)
+	if !ok {
+		return nil, 0
+	}
+	cf := calleeOf(info, call)
+	if cf == nil {
+		return nil, 0
+	}
+	t := fn.Prog.FuncOf[cf]
+	if t == nil || t.Body == nil {
+		return nil, 0
+	}
+	for i, l := range st.Lhs {
+		if isIdentObj(info, l, o) {
+			return t, i
+		}
+	}
+	return nil, 0
+}
+
+// answersOnlyOnLookupAt: like answersOnlyOnLookup for the boolean result at position idx
+// (-1: the last one).
+func answersOnlyOnLookupAt(t *Func, idx int, answer bool) bool {
 	info := t.Info()
 	name := "false"
 	if answer {
@@ -259,7 +314,15 @@ func answersOnlyOnLookup(t *Func, answer bool) bool {
 		if !ok || len(ret.Results) == 0 {
 			return true
 		}
-		last, ok := ast.Unparen(ret.Results[len(ret.Results)-1]).(*ast.Ident)
+		ri := idx
+		if ri < 0 {
+			ri = len(ret.Results) - 1
+		}
+		if ri >= len(ret.Results) {
+			good = false
+			return true
+		}
+		last, ok := ast.Unparen(ret.Results[ri]).(*ast.Ident)
 		if !ok || (last.Name != "true" && last.Name != "false") {
 			good = false
 			return true
